@@ -73,3 +73,4 @@ package quorum
 //@   requires !isnil(l)
 //@   after quorum.MajorityConfig.CommittedIndex #2 assume cnt_mono(c[1], id :: ack(l, id) >= result, id :: ack(l, id) >= idx0) && cnt_mono(c[0], id :: ack(l, id) >= idx0, id :: ack(l, id) >= result)
 //@   ensures #joint-min [C12 C06 C10] jointCommittedSpec(c, l, result)
+//@   ensures #is-an-ack [C11 C14] (len(c[0]) > 0 || len(c[1]) > 0) ==> (result == 0 || (exists id uint64 :: (has(c[0], id) || has(c[1], id)) && ack(l, id) == result))
